@@ -130,6 +130,13 @@ def generate(seed, tier="quick"):
             order = _schedule(srng, direct_first, mode)
             sched.append(_cut(srng, order, f"t{fi}"))
         scheds.append({"mode": mode, "tests": sched})
+    mrng = sub(seed, "mutation")
+    if mrng.random() < 0.3:
+        # one more test (the same in both schedules): an object observed repeatedly by one site while the test mutates it in between
+        t = W.add_mutation_test(mrng, files[0], ops=("in", "in", "le", "ge", "eq"))
+        files[0]["tests"] = []
+        for s in scheds:
+            s["tests"][0].append(copy.deepcopy(t))
     for f in files:
         del f["_per_site"]
     frng = sub(seed, "flags")
@@ -236,7 +243,7 @@ def execute(case, ctx):
                 bad.add(sid)
     for sid in ops:
         src.setdefault(sid, MISSING)
-    events = [(fn, tn, e) for fn, tn, e in W.events_in_order(prog) if not sidx[e.get("site", "")].get("dyn")] if True else []
+    events = [(fn, tn, e) for fn, tn, e in W.events_in_order(prog) if not (e.get("site") in sidx and sidx[e["site"]].get("dyn"))]
     m = SessionModel(src, ops, approved).run(events, V.pyval)
     for (fn, sid), call in A["after"].items():
         if sid in bad:
